@@ -232,7 +232,10 @@ def verify_chain(task):
     """run the attempts of a task in order until one proves it or a concrete-mode counterexample is found"""
     best = None
     hist = []
+    abstract_failed = False
     for (mode, backend, tmo) in task["attempts"]:
+        if abstract_failed and mode != "concrete":
+            continue
         t = dict(task)
         t.update(mode=mode, backend=backend, timeout=tmo)
         r = verify_one(t)
@@ -245,6 +248,8 @@ def verify_chain(task):
                 best = r
         if r["status"] == "failed" and r["mode"] == "concrete":
             break
+        if r["status"] == "failed" and r["mode"] != "concrete":
+            abstract_failed = True
         if r["status"] == "infra" and not hist[:-1]:
             break   # the first attempt already cannot be built: later ones share the problem
     best["history"] = hist
